@@ -51,12 +51,17 @@ impl Prop for C11 {
         // the threading campaign cuts a single file
         cfg.includes = campaign == "table" && t.chance(1, 2);
         cfg.position = false;
+        // `define / `undef produced by expanding a maker / remover macro (seed C11e)
+        cfg.define_via = t.chance(1, 2);
         cfg.max_items = 10;
         let case = gen_case(ctx, t, &cfg)?;
         if campaign == "table" {
             let o = compare_with_model(ctx, "C11", case, st)?;
             if o.model.stats.includes_entered > 0 {
                 st.class("table compared after includes");
+            }
+            if o.model.stats.undefs_via > 0 {
+                st.class("undef made by a macro expansion");
             }
             let text = &o.case.rendered[0].text;
             let fl_default = text.contains("=") && text.contains("`define");
